@@ -29,11 +29,13 @@ VARIABLES
   lease,      \* [P -> Int]      ms
   ann,        \* [E -> BOOLEAN]  endpoint currently announced (and its participant present)
   attic,      \* [E -> BOOLEAN]  endpoint was announced when its participant timed out
+  fuzzy,      \* [E -> BOOLEAN]  in the attic, and its participant was disposed while lost: the statement leaves open
+              \*                  whether such an endpoint is known again when the participant reappears
   stale,      \* [E -> BOOLEAN]  named deviation S8: restored from the attic but not re-matched until re-announced
   totW, totR, \* last total counts reported to the local writer / reader
   viol
 
-dabsVars == <<now, known, lastSign, lease, ann, attic, stale, totW, totR, viol>>
+dabsVars == <<now, known, lastSign, lease, ann, attic, fuzzy, stale, totW, totR, viol>>
 
 \* the endpoint table used by the `disc` driver (configurations substitute these for the constants)
 OwnerDef == <<1, 1, 1, 2, 2, 2>>
@@ -44,7 +46,7 @@ CompatibleDef == <<TRUE, TRUE, FALSE, TRUE, TRUE, TRUE>>
 DAbsInit ==
   /\ now = 0
   /\ known = [p \in P |-> FALSE] /\ lastSign = [p \in P |-> 0] /\ lease = [p \in P |-> DefaultLease]
-  /\ ann = [e \in E |-> FALSE] /\ attic = [e \in E |-> FALSE] /\ stale = [e \in E |-> FALSE]
+  /\ ann = [e \in E |-> FALSE] /\ attic = [e \in E |-> FALSE] /\ fuzzy = [e \in E |-> FALSE] /\ stale = [e \in E |-> FALSE]
   /\ totW = 0 /\ totR = 0 /\ viol = {}
 
 \* the sets the property speaks of
@@ -86,12 +88,12 @@ Finish(annN, stN, obs, extra) ==
   /\ viol' = viol \cup Judge(annN, stN, obs) \cup extra
 
 (* ------------------------------------------------------------- events *)
-AbsTick(dt) == now' = now + dt /\ UNCHANGED <<known, lastSign, lease, ann, attic, stale, totW, totR, viol>>
+AbsTick(dt) == now' = now + dt /\ UNCHANGED <<known, lastSign, lease, ann, attic, fuzzy, stale, totW, totR, viol>>
 
 \* SPDP announcement.  A participant that had timed out and reappears: its endpoints become known again.
 \* devS8: the named deviation is in force (listed as known finding)
 AbsSpdp(p, l, obs, devS8) ==
-  LET back == {e \in E : Owner[e] = p /\ attic[e]}
+  LET back == {e \in E : Owner[e] = p /\ attic[e] /\ (~fuzzy[e] \/ e \in obs.ext)}
       annN == IF known[p] THEN ann ELSE [e \in E |-> ann[e] \/ e \in back]
       x1 == IF p \notin obs.parts THEN {"C12_announced_participant_not_known"} ELSE {}
       x2 == IF ~known[p] /\ ~(back \subseteq obs.ext) THEN {"C12_endpoints_of_reappeared_participant_not_known_again"} ELSE {}
@@ -99,13 +101,14 @@ AbsSpdp(p, l, obs, devS8) ==
      /\ lastSign' = [lastSign EXCEPT ![p] = now]
      /\ lease' = [lease EXCEPT ![p] = IF l = -1 THEN DefaultLease ELSE l]
      /\ attic' = IF known[p] THEN attic ELSE [e \in E |-> attic[e] /\ Owner[e] # p]
+     /\ fuzzy' = IF known[p] THEN fuzzy ELSE [e \in E |-> fuzzy[e] /\ Owner[e] # p]
      /\ Finish(annN, IF devS8 /\ ~known[p] THEN [e \in E |-> stale[e] \/ (e \in back /\ ~ann[e])] ELSE stale, obs, x1 \cup x2)
      /\ UNCHANGED now
 
 AbsAlive(p, obs) ==
   /\ lastSign' = [lastSign EXCEPT ![p] = IF known[p] THEN now ELSE @]
   /\ Finish(ann, stale, obs, {})
-  /\ UNCHANGED <<now, known, lease, attic>>
+  /\ UNCHANGED <<now, known, lease, attic, fuzzy>>
 
 \* clean-up tick: lost = participants the implementation declared lost
 AbsCleanup(lost, obs) ==
@@ -119,14 +122,16 @@ AbsCleanup(lost, obs) ==
   IN /\ known' = [p \in P |-> known[p] /\ p \notin gone]
      /\ attic' = [e \in E |-> attic[e] \/ (Owner[e] \in gone /\ ann[e])]
      /\ Finish(annN, [e \in E |-> stale[e] /\ Owner[e] \notin gone], obs, x1 \cup x2 \cup x3 \cup x4)
-     /\ UNCHANGED <<now, lastSign, lease>>
+     /\ UNCHANGED <<now, lastSign, lease, fuzzy>>
 
 AbsDisposeP(p, obs) ==
   LET annN == [e \in E |-> ann[e] /\ Owner[e] # p]
       x1 == IF p \in obs.parts THEN {"C12_disposed_participant_still_known"} ELSE {}
       x2 == IF \E e \in E : Owner[e] = p /\ e \in obs.ext THEN {"C12_dispose_left_endpoints_behind"} ELSE {}
   IN /\ known' = [known EXCEPT ![p] = FALSE]
-     /\ attic' = [e \in E |-> attic[e] /\ Owner[e] # p]
+     \* disposed while known: everything goes.  Disposed while lost (its endpoints are in the attic): left open
+     /\ attic' = IF known[p] THEN [e \in E |-> attic[e] /\ Owner[e] # p] ELSE attic
+     /\ fuzzy' = IF known[p] THEN [e \in E |-> fuzzy[e] /\ Owner[e] # p] ELSE [e \in E |-> fuzzy[e] \/ (attic[e] /\ Owner[e] = p)]
      /\ Finish(annN, [e \in E |-> stale[e] /\ Owner[e] # p], obs, x1 \cup x2)
      /\ UNCHANGED <<now, lastSign, lease>>
 
@@ -137,11 +142,13 @@ AbsAnnounce(e, obs) ==
       x1 == IF OnTopic[e] /\ ~Compatible[e] /\ ~(\E i \in DOMAIN evs : evs[i].k = "IncompatibleQos")
               THEN {"C11_no_incompatible_qos_event"} ELSE {}
   IN /\ Finish(annN, [stale EXCEPT ![e] = FALSE], obs, x1)
-     /\ UNCHANGED <<now, known, lastSign, lease, attic>>
+     /\ UNCHANGED <<now, known, lastSign, lease, attic, fuzzy>>
 
 AbsDisposeE(e, obs) ==
   /\ Finish([ann EXCEPT ![e] = FALSE], [stale EXCEPT ![e] = FALSE], obs, {})
-  /\ attic' = [attic EXCEPT ![e] = FALSE]
+  \* a disposal that arrives while the endpoint sits in the attic (its participant is lost): left open whether it
+  \* is known again when the participant reappears
+  /\ attic' = attic /\ fuzzy' = [fuzzy EXCEPT ![e] = attic[e]]
   /\ UNCHANGED <<now, known, lastSign, lease>>
 
 DInv_NoViolation == viol = {}
